@@ -16,13 +16,23 @@ theorem C14_exact_subclass (S : Setup) (hok : TreeOK S) (K D : Nat) (hK : K ∈ 
     (hD : D ∈ S.tr.descendants K) (x : Obj) (kvs : List (Obj × Obj)) (hx : ConformsExact S D x kvs) :
     S.roundTrip K x = some x
 ```
-What is proved is `C14_exact_subclass_partial`: the same with the two extra hypotheses `¬ F15Region S K` and
-`¬ F47Region S`, each of which excludes exactly the region of a recorded finding:
+What is proved is `C14_exact_subclass_partial`: the same with the extra hypotheses `¬ F15Region S K`,
+`¬ F47Region S`, `¬ F65Region S` and `¬ F66Region S`, each of which excludes exactly the region of a recorded finding:
 * F15 — union strategy, `forbid_extra_keys`, `K` without subclasses: `K` keeps its own structure hook but gets the
   union's tagging unstructure hook (`C14_F15_leaf_tag_forbidden_witness`);
 * F47 — automatic strategy, a class with subclasses shares one of its own literal discriminator values with a
   descendant: the disambiguator answers `Union[K, …]`, the converter's union hook picks `K`, which re-enters `K`'s
   hook — endless recursion (`C14_F47_literal_recursion_witness`).
+* F65 — union strategy on an explicit `subclasses=` listing in which no listed class is the DIRECT base of a listed
+  class: `parent_classes` is empty, nothing is configured (`C14_F65_gap_nothing_configured_witness`); excluded by the
+  third extra hypothesis `¬ F65Region S`.
+* F66 — union strategy, explicit listing in which a class WITH subclasses is handled before one of its ancestors (or
+  twice): the later union hook captures the earlier one as that member's own hook; under `forbid_extra_keys` it pops the
+  tag before the captured hook looks for it (`C14_F66_inner_before_ancestor_witness`); excluded by `¬ F66Region S`
+  (= `OrderOK`; without `forbid_extra_keys` the round trip survives such an order too, which is shown on the witness but
+  not proved in general).
+(`TreeOK` for the union strategy also asks that no class without subclasses occurs twice in the class tuple: then
+applying the strategy raises — finding F64, `C14_F64_duplicate_leaf_witness`.)
 `ConformsExact` itself carries, for the automatic strategy, C12's payload hypotheses (keys the disambiguator takes for
 required are present, literal keys are present).  Two converter configurations violate them for perfectly good
 instances — F48 (defaulted literal discriminator + `omit_if_default`) and F49 (a dataclass `default_factory` field
@@ -77,13 +87,14 @@ theorem C14_exact_subclass_union_partial (tr : Tree) (us : UStrat) (forbid : Boo
     (x : Obj) (kvs : List (Obj × Obj)) (hx : Tagged.classOf x = some D) (hun : H.un D x = some (.dict kvs))
     (hst : H.st D (.dict kvs) = some x) (hfresh : dlookup kvs (.str us.tagName) = Option.none)
     (hign : forbid = false → H.st D (.dict (kvs ++ [(.str us.tagName, us.tag D)])) = H.st D (.dict kvs))
-    (h15 : ¬ (forbid = true ∧ tr.anyParent = true ∧ (tr.subclassesOf K).length ≤ 1)) :
+    (h15 : ¬ (forbid = true ∧ tr.anyParent = true ∧ (tr.subclassesOf K).length ≤ 1))
+    (h65 : ¬ (tr.anyParent = false ∧ tr.unionClasses ≠ [0])) (hord : OrderOK tr) :
     (unUnion tr us forbid H K x).bind (stUnion tr us forbid H K) = some x := by
   have hDu : D ∈ tr.unionClasses := (mem_subclassesOf.mp hD).1
   cases hany : tr.anyParent with
   | false =>
     -- nothing was registered: the tree is the root alone
-    have huc := unionClasses_of_not_anyParent hany
+    have huc : tr.unionClasses = [0] := Classical.byContradiction (fun hne => h65 ⟨hany, hne⟩)
     have hK0 : K = 0 := by rw [huc] at hK; simpa using hK
     have hD0 : D = 0 := by rw [huc] at hDu; simpa using hDu
     subst hK0; subst hD0
@@ -92,7 +103,7 @@ theorem C14_exact_subclass_union_partial (tr : Tree) (us : UStrat) (forbid : Boo
     rw [unUnion_tagged tr us forbid H hany K D hDu x kvs hx hun hfresh]
     simp only [Option.bind_some]
     by_cases hinner : 1 < (tr.subclassesOf K).length
-    · rw [stUnion_inner tr us forbid H hok hany K D hD hinner kvs hfresh hign, hst]
+    · rw [stUnion_inner tr us forbid H hok hord hany K D hK hD hinner kvs hfresh hign, hst]
     · have hleaf : (tr.subclassesOf K).length ≤ 1 := by omega
       have hDK : D = K := eq_of_mem_short (l := tr.subclassesOf K) hD (self_mem_subclassesOf hK) (by omega)
       subst hDK
@@ -105,7 +116,8 @@ theorem C14_exact_subclass_union_partial (tr : Tree) (us : UStrat) (forbid : Boo
 regions of the two recorded findings. -/
 theorem C14_exact_subclass_partial (S : Setup) (hok : TreeOK S) (K D : Nat) (hK : K ∈ S.tr.unionClasses)
     (hD : D ∈ S.tr.descendants K) (x : Obj) (kvs : List (Obj × Obj)) (hx : ConformsExact S D x kvs)
-    (h15 : ¬ F15Region S K) (h43 : ¬ F47Region S) : S.roundTrip K x = some x := by
+    (h15 : ¬ F15Region S K) (h43 : ¬ F47Region S) (h65 : ¬ F65Region S) (h66 : ¬ F66Region S) :
+    S.roundTrip K x = some x := by
   obtain ⟨tr, strategy, forbid, H, so, uo⟩ := S
   obtain ⟨hcls, hun, hst, hrest⟩ := hx
   cases strategy with
@@ -130,7 +142,7 @@ theorem C14_exact_subclass_partial (S : Setup) (hok : TreeOK S) (K D : Nat) (hK 
     simp only [TreeOK] at hok
     simp only at hrest
     exact C14_exact_subclass_union_partial tr us forbid H hok K D hK hD x kvs hcls hun hst hrest.1 hrest.2
-      (fun h => h15 h)
+      (fun h => h15 h) (fun h => h65 h) (Classical.byContradiction (fun h => h66 h))
 
 /-- **C14_order_independent.**  The reduced unions are built from Python sets of classes and the disambiguator iterates
 sets of strings: both enumeration orders vary between processes.  Wherever the round-trip theorem applies, the outcome
@@ -138,10 +150,11 @@ is the same for any two choices of them. -/
 theorem C14_order_independent (S : Setup) (so' : Disambig.SetOrder) (uo' : UnionOrder S.tr)
     (hok : TreeOK S) (hok' : TreeOK { S with so := so', uo := uo' }) (K D : Nat) (hK : K ∈ S.tr.unionClasses)
     (hD : D ∈ S.tr.descendants K) (x : Obj) (kvs : List (Obj × Obj)) (hx : ConformsExact S D x kvs)
-    (h15 : ¬ F15Region S K) (h43 : ¬ F47Region S) (h43' : ¬ F47Region { S with so := so', uo := uo' }) :
+    (h15 : ¬ F15Region S K) (h43 : ¬ F47Region S) (h43' : ¬ F47Region { S with so := so', uo := uo' })
+    (h65 : ¬ F65Region S) (h66 : ¬ F66Region S) :
     ({ S with so := so', uo := uo' } : Setup).roundTrip K x = S.roundTrip K x := by
-  rw [C14_exact_subclass_partial S hok K D hK hD x kvs hx h15 h43]
-  exact C14_exact_subclass_partial { S with so := so', uo := uo' } hok' K D hK hD x kvs hx h15 h43'
+  rw [C14_exact_subclass_partial S hok K D hK hD x kvs hx h15 h43 h65 h66]
+  exact C14_exact_subclass_partial { S with so := so', uo := uo' } hok' K D hK hD x kvs hx h15 h43' h65 h66
 
 /-- **C14_reapplied_hooks_auto.**  Applying the automatic strategy AGAIN to the same converter (or to a copy of it), e.g.
 after the hierarchy has grown: the later application captures, for every class `D` the earlier one registered hooks for,
@@ -152,7 +165,9 @@ theorem C14_reapplied_hooks_auto (S1 : Setup) (hs : S1.strategy = .auto) (plain 
     (x : Obj) (kvs : List (Obj × Obj)) (hx : ConformsExact S1 D x kvs) :
     (S1.hooksAfter plain).un D x = some (.dict kvs) ∧ (S1.hooksAfter plain).st D (.dict kvs) = some x := by
   have h15 : ¬ F15Region S1 D := by unfold F15Region; rw [hs]; exact fun h => h
-  have hrt := C14_exact_subclass_partial S1 hok D D hD (self_mem_subclassesOf hD) x kvs hx h15 h47
+  have h65 : ¬ F65Region S1 := by unfold F65Region; rw [hs]; exact fun h => h
+  have h66 : ¬ F66Region S1 := by unfold F66Region; rw [hs]; exact fun h => h
+  have hrt := C14_exact_subclass_partial S1 hok D D hD (self_mem_subclassesOf hD) x kvs hx h15 h47 h65 h66
   have hun : S1.un D x = some (.dict kvs) := by
     unfold Setup.un
     rw [hs]
@@ -231,7 +246,7 @@ def c14Fld (n : String) (lit : Option (List Nat) := Option.none) : SField := ⟨
 
 /-- the fixture of the project's own tests: `Parent{a}`, `Child1(Parent){b}`, `GrandChild(Child1){c}`, `Child2(Parent){d}` -/
 def c14Tree : Tree :=
-  ⟨[⟨Option.none, [c14Fld "a"]⟩, ⟨some 0, [c14Fld "b"]⟩, ⟨some 1, [c14Fld "c"]⟩, ⟨some 0, [c14Fld "d"]⟩]⟩
+  { nodes := [⟨Option.none, [c14Fld "a"]⟩, ⟨some 0, [c14Fld "b"]⟩, ⟨some 1, [c14Fld "c"]⟩, ⟨some 0, [c14Fld "d"]⟩] }
 
 def c14Tags : UStrat :=
   ⟨"_type", fun c => .str (match c with | 0 => "Parent" | 1 => "Child1" | 2 => "GrandChild" | _ => "Child2")⟩
@@ -271,7 +286,7 @@ example : (c14Auto true).roundTrip 0 c14Grand = some c14Grand :=
   C14_exact_subclass_partial (c14Auto true) (c14Auto_ok true) 0 2 (by decide) (by decide) c14Grand c14GrandKvs
     ⟨rfl, by decide, by decide,
       ⟨[("a", 1), ("b", 2), ("c", 3)], by decide, payloadOfB_sound (by decide), litKeysPresentB_sound (by decide)⟩⟩
-    (fun h => h) (c14Auto_no43 true)
+    (fun h => h) (c14Auto_no43 true) (fun h => h) (fun h => h)
 
 /-- non-vacuity of `C14_never_misattributes`: the hypotheses hold for the same case, and the conclusion is about a
 result that exists -/
@@ -283,13 +298,15 @@ example : (c14Auto true).H.st 2 (.dict c14GrandKvs) = some c14Grand :=
 example : (c14Union true).roundTrip 1 c14Grand = some c14Grand :=
   C14_exact_subclass_partial (c14Union true) (c14Union_ok true) 1 2 (by decide) (by decide) c14Grand c14GrandKvs
     ⟨rfl, by decide, by decide, by decide, fun h => by cases h⟩
-    (fun h => by have := h.2.2; revert this; decide) (fun h => h)
+    (fun h => by have := h.2.2; revert this; decide) (fun h => h) (fun h => by have := h.1; revert this; decide)
+    (fun h => h (orderOKB_sound (by decide)))
 
 /-- … union strategy without `forbid_extra_keys`, `K = Child2` (no subclasses): the own hook ignores the tag -/
 example : (c14Union false).roundTrip 3 c14Child2 = some c14Child2 :=
   C14_exact_subclass_partial (c14Union false) (c14Union_ok false) 3 3 (by decide) (by decide) c14Child2 c14Child2Kvs
     ⟨rfl, by decide, by decide, by decide, fun _ => by decide⟩
-    (fun h => by cases h.1) (fun h => h)
+    (fun h => by cases h.1) (fun h => h) (fun h => by have := h.1; revert this; decide)
+    (fun h => h (orderOKB_sound (by decide)))
 
 /-- **C14_F15_leaf_tag_forbidden_witness** (negative witness, finding F15).  All hypotheses of the full statement hold
 for the union strategy on the four-class fixture with `forbid_extra_keys`, `K = D = Child2`, yet the round trip raises:
@@ -304,7 +321,7 @@ theorem C14_F15_leaf_tag_forbidden_witness :
 
 /-- `P{k: Literal[1]}`, `C1(P){x}` (does not redefine `k`), `C2(P){k: Literal[2]}` -/
 def c14LitTree : Tree :=
-  ⟨[⟨Option.none, [c14Fld "k" (some [1])]⟩, ⟨some 0, [c14Fld "x"]⟩, ⟨some 0, [c14Fld "k" (some [2])]⟩]⟩
+  { nodes := [⟨Option.none, [c14Fld "k" (some [1])]⟩, ⟨some 0, [c14Fld "x"]⟩, ⟨some 0, [c14Fld "k" (some [2])]⟩] }
 
 def c14Lit : Setup :=
   { tr := c14LitTree, strategy := .auto, forbid := false, H := concHooks c14LitTree false,
@@ -337,7 +354,7 @@ theorem C14_F47_literal_recursion_witness :
 /-- non-vacuity of `C14_refuses`: `P{a}`, `C(P){b = 0}` (the subclass adds only a defaulted field) — applying the
 automatic strategy raises -/
 def c14Refuse : Setup :=
-  let tr : Tree := ⟨[⟨Option.none, [c14Fld "a"]⟩, ⟨some 0, [⟨⟨"b", "b", false, Option.none⟩, some 0, false⟩]⟩]⟩
+  let tr : Tree := { nodes := [⟨Option.none, [c14Fld "a"]⟩, ⟨some 0, [⟨⟨"b", "b", false, Option.none⟩, some 0, false⟩]⟩] }
   { tr := tr, strategy := .auto, forbid := false, H := concHooks tr false,
     so := Disambig.SetOrder.id, uo := UnionOrder.id tr }
 
@@ -352,9 +369,9 @@ example : c14Refuse.applyOk = false :=
 /-- non-vacuity of `C14_never_guesses`: in the literal tree make `x` defaulted, then `{k: 1}` is a form of both `P` and
 `C1` and the hook for `P` raises on it -/
 def c14Shared : Setup :=
-  let tr : Tree := ⟨[⟨Option.none, [c14Fld "k" (some [1])]⟩,
+  let tr : Tree := { nodes := [⟨Option.none, [c14Fld "k" (some [1])]⟩,
                      ⟨some 0, [⟨⟨"x", "x", false, Option.none⟩, some 0, false⟩]⟩,
-                     ⟨some 0, [c14Fld "k" (some [2])]⟩]⟩
+                     ⟨some 0, [c14Fld "k" (some [2])]⟩] }
   { tr := tr, strategy := .auto, forbid := false, H := concHooks tr false,
     so := Disambig.SetOrder.id, uo := UnionOrder.id tr }
 
@@ -371,7 +388,7 @@ although nothing is wrong with the instance; the model reproduces both: -/
 /-- dataclasses `P{a}`, `C(P){e = field(default_factory=…)}` with `omit_if_default`: the disambiguator takes `e` for a
 required field (`dreq = true`) and recognises `C` by it, the unstructure hook leaves it out -/
 def c14Factory : Setup :=
-  let tr : Tree := ⟨[⟨Option.none, [c14Fld "a"]⟩, ⟨some 0, [⟨⟨"e", "e", true, Option.none⟩, some 1, true⟩]⟩]⟩
+  let tr : Tree := { nodes := [⟨Option.none, [c14Fld "a"]⟩, ⟨some 0, [⟨⟨"e", "e", true, Option.none⟩, some 1, true⟩]⟩] }
   { tr := tr, strategy := .auto, forbid := false, H := concHooks tr false,
     so := Disambig.SetOrder.id, uo := UnionOrder.id tr }
 
@@ -387,8 +404,8 @@ example : c14Factory.roundTrip 0 (.inst 1 [("a", .int 1), ("e", .int 2)]) = some
 
 /-- `P{k: Literal[1] = 1}`, `C(P){k: Literal[2] = 2, x}` with `omit_if_default` -/
 def c14LitOmit : Setup :=
-  let tr : Tree := ⟨[⟨Option.none, [⟨⟨"k", "k", false, some [1]⟩, some 1, true⟩]⟩,
-                     ⟨some 0, [⟨⟨"k", "k", false, some [2]⟩, some 2, true⟩, c14Fld "x"]⟩]⟩
+  let tr : Tree := { nodes := [⟨Option.none, [⟨⟨"k", "k", false, some [1]⟩, some 1, true⟩]⟩,
+                     ⟨some 0, [⟨⟨"k", "k", false, some [2]⟩, some 2, true⟩, c14Fld "x"]⟩] }
   { tr := tr, strategy := .auto, forbid := false, H := concHooks tr false,
     so := Disambig.SetOrder.id, uo := UnionOrder.id tr }
 
@@ -416,6 +433,94 @@ example : ((c14Auto true).hooksAfter (concHooks c14Tree true)).st 2 (.dict c14Gr
     c14Grand c14GrandKvs
     ⟨rfl, by decide, by decide,
       ⟨[("a", 1), ("b", 2), ("c", 3)], by decide, payloadOfB_sound (by decide), litKeysPresentB_sound (by decide)⟩⟩).2
+
+/-! ### explicit `subclasses=` listings: gaps and duplicates -/
+
+/-- `K{a}` → `_Helper(K){h}` → `Leaf(_Helper){l}` and `M(K){m}`, listed as `subclasses=(M, Leaf)`: `Leaf` hangs below `K`
+(carrying `h`), its direct base is not listed -/
+def c14GapTree : Tree :=
+  { nodes := [⟨Option.none, [c14Fld "a"]⟩, ⟨some 0, [c14Fld "m"]⟩, ⟨some 0, [c14Fld "h", c14Fld "l"]⟩], indirect := [2] }
+
+def c14GapTags : UStrat := ⟨"_type", fun c => .str (match c with | 0 => "K" | 1 => "M" | _ => "Leaf")⟩
+
+def c14Gap (tr : Tree) : Setup :=
+  { tr := tr, strategy := .union c14GapTags, forbid := false, H := concHooks tr false,
+    so := Disambig.SetOrder.id, uo := UnionOrder.id tr }
+
+def c14Leaf : Obj := .inst 2 [("a", .int 1), ("h", .int 2), ("l", .int 3)]
+
+/-- non-vacuity with a gap: another listed class IS a direct child of `K`, the strategy configures everything and the
+leaf below the omitted helper comes back through `K` as itself -/
+example : (c14Gap c14GapTree).roundTrip 0 c14Leaf = some c14Leaf :=
+  C14_exact_subclass_partial (c14Gap c14GapTree)
+    (by show TreeOKUnion c14GapTree c14GapTags; exact treeOKUnionB_sound (by decide)) 0 2 (by decide) (by decide)
+    c14Leaf [(.str "a", .int 1), (.str "h", .int 2), (.str "l", .int 3)]
+    ⟨rfl, by decide, by decide, by decide, fun _ => by decide⟩
+    (fun h => by cases h.1) (fun h => h) (fun h => by have := h.1; revert this; decide)
+    (fun h => h (orderOKB_sound (by decide)))
+
+def c14GapOnly : Setup :=
+  c14Gap { nodes := [⟨Option.none, [c14Fld "a"]⟩, ⟨some 0, [c14Fld "h", c14Fld "l"]⟩], indirect := [1] }
+
+/-- **C14_F65_gap_nothing_configured_witness** (finding F65): the same hierarchy listed as `subclasses=(Leaf,)` — no
+listed class is a DIRECT base of a listed class, `parent_classes` is empty, the union strategy returns without
+configuring anything (`applyOk`), every hypothesis of the full statement holds, and the `Leaf` comes back through `K` as a
+bare `K(a=1)`. -/
+theorem C14_F65_gap_nothing_configured_witness :
+    TreeOK c14GapOnly ∧ c14GapOnly.applyOk = true ∧ F65Region c14GapOnly ∧ ¬ F15Region c14GapOnly 0 ∧
+    ConformsExact c14GapOnly 1 (.inst 1 [("a", .int 1), ("h", .int 2), ("l", .int 3)])
+      [(.str "a", .int 1), (.str "h", .int 2), (.str "l", .int 3)] ∧
+    c14GapOnly.roundTrip 0 (.inst 1 [("a", .int 1), ("h", .int 2), ("l", .int 3)]) = some (.inst 0 [("a", .int 1)]) := by
+  refine ⟨?_, by decide, ⟨by decide, by decide⟩, (fun h => by cases h.1),
+    ⟨rfl, by decide, by decide, by decide, fun _ => by decide⟩, by decide⟩
+  show TreeOKUnion _ c14GapTags
+  exact treeOKUnionB_sound (by decide)
+
+/-- **C14_F64_duplicate_leaf_witness** (finding F64): a class without subclasses that occurs twice in the class tuple
+(listed twice in `subclasses=`; or reached twice by `_make_subclasses_tree` in a diamond) makes the union strategy raise
+while it is applied (`Union[(E, E)]` is `E`, which has no `__args__`); listed once, or with a class below it, it is fine;
+the automatic strategy does not mind. -/
+theorem C14_F64_duplicate_leaf_witness :
+    applyUnionOk { c14GapTree with order := [0, 1, 2, 1] } c14GapTags = false ∧
+    applyUnionOk c14GapTree c14GapTags = true ∧
+    applyUnionOk { c14Tree with order := [0, 1, 2, 3, 1] } c14Tags = true ∧
+    applyAutoOk Disambig.SetOrder.id { c14GapTree with order := [0, 1, 2, 1] } (UnionOrder.id _) = true := by decide
+
+/-- the four-class fixture listed level by level with `GrandChild` first: `subclasses=(GrandChild, Child1, Child2)` -/
+def c14Backwards (forbid : Bool) : Setup :=
+  let tr : Tree := { c14Tree with order := [0, 2, 1, 3] }
+  { tr := tr, strategy := .union c14Tags, forbid := forbid, H := concHooks tr forbid,
+    so := Disambig.SetOrder.id, uo := UnionOrder.id tr }
+
+/-- … a listing is fine as long as no class WITH subclasses precedes an ancestor (non-vacuity of `OrderOK` beyond the
+depth-first order) -/
+example : OrderOK (c14Backwards true).tr ∧ (c14Backwards true).roundTrip 0 c14Grand = some c14Grand := by
+  exact ⟨orderOKB_sound (by decide), by decide⟩
+
+/-- a chain `A{a}` > `B{b}` > `C{c}` > `D{d}`, listed as `subclasses=(C, D, B)`: `C` (which has the subclass `D`) is handled
+before its ancestor `B` -/
+def c14ChainTree (order : List Nat) : Tree :=
+  { nodes := [⟨Option.none, [c14Fld "a"]⟩, ⟨some 0, [c14Fld "b"]⟩, ⟨some 1, [c14Fld "c"]⟩, ⟨some 2, [c14Fld "d"]⟩],
+    order := order }
+
+def c14Chain (order : List Nat) (forbid : Bool) : Setup :=
+  { tr := c14ChainTree order, strategy := .union ⟨"_type", fun c => .int c⟩, forbid := forbid,
+    H := concHooks (c14ChainTree order) forbid, so := Disambig.SetOrder.id, uo := UnionOrder.id _ }
+
+/-- **C14_F66_inner_before_ancestor_witness** (finding F66).  With `C` handled before `B`, `B`'s union hook captures `C`'s
+union hook as `C`'s own hook; under `forbid_extra_keys` it pops the tag first, and the captured hook then looks for it in
+vain: an instance of `C` no longer round-trips through `B` (it still does through the root `A`, which was handled first,
+and through `C`; without `forbid_extra_keys`; and in the depth-first order). -/
+theorem C14_F66_inner_before_ancestor_witness :
+    ¬ OrderOK (c14ChainTree [0, 2, 3, 1]) ∧ (c14Chain [0, 2, 3, 1] true).applyOk = true ∧
+    (c14Chain [0, 2, 3, 1] true).roundTrip 1 (.inst 2 [("a", .int 1), ("b", .int 2), ("c", .int 3)]) = Option.none ∧
+    (c14Chain [0, 2, 3, 1] true).roundTrip 0 (.inst 2 [("a", .int 1), ("b", .int 2), ("c", .int 3)]) =
+      some (.inst 2 [("a", .int 1), ("b", .int 2), ("c", .int 3)]) ∧
+    (c14Chain [0, 2, 3, 1] false).roundTrip 1 (.inst 2 [("a", .int 1), ("b", .int 2), ("c", .int 3)]) =
+      some (.inst 2 [("a", .int 1), ("b", .int 2), ("c", .int 3)]) ∧
+    (c14Chain [] true).roundTrip 1 (.inst 2 [("a", .int 1), ("b", .int 2), ("c", .int 3)]) =
+      some (.inst 2 [("a", .int 1), ("b", .int 2), ("c", .int 3)]) :=
+  ⟨not_orderOK_of_B (by decide), by decide, by decide, by decide, by decide, by decide⟩
 
 end Examples
 
